@@ -415,6 +415,13 @@ structure JState where
   raisedGen2 : Nat := 0
   raisedVisits : Nat := 0
   raisedOps : Nat := 0
+  /-- entities of the current case with a pending deletion (`Entities::delete` called, no `maintain()`
+      yet): part of `ents`, may overlap `raised`; alive for the model and the spec. Statistics only. -/
+  killedSet : Std.HashSet Nat := {}
+  killed : Nat := 0
+  killedCases : Nat := 0
+  killedVisits : Nat := 0
+  killedOps : Nat := 0
 
 def LIMIT_A : Nat := 524288   -- Level A (array-backed sets) is evaluated for indices below 2^19
 
@@ -460,6 +467,15 @@ def setupRaised (st : JState) (ts : List String) : Option JState := do
                  raised := st.raised + pairs.length,
                  raisedCases := st.raisedCases + (if st.raisedSet.isEmpty && !pairs.isEmpty then 1 else 0),
                  raisedGen2 := st.raisedGen2 + (pairs.filter (fun p => decide (p.2 ≥ (2 : Int)))).length }
+
+/-- `killed <tok>*`: a subset of the `ents` line. No semantic content for model or spec. -/
+def setupKilled (st : JState) (ts : List String) : Option JState := do
+  let es ← mapM? parseEntry ts
+  let pairs := es.flatMap (fun (lo, hi, g) => (List.range (hi + 1 - lo)).map (fun j => (lo + j, g)))
+  if pairs.any (fun (i, g) => st.alive.get? i != some g) then none else
+  pure { st with killedSet := pairs.foldl (fun s p => s.insert p.1) st.killedSet,
+                 killed := st.killed + pairs.length,
+                 killedCases := st.killedCases + (if st.killedSet.isEmpty && !pairs.isEmpty then 1 else 0) }
 
 def setupStore (st : JState) (k : Nat) (kind : Kind) (ts : List String) : Option JState := do
   let es ← mapM? parseEntry ts
@@ -798,7 +814,7 @@ def joinLine (st : JState) (line : String) : JState × List String :=
     let st := st.closeCase
     ({ st with caseId := id, lineNo := 0, w := {}, rawSets := {}, hugeSets := [], alive := {},
                lstores := {}, lsets := {}, lents := none, diverged := false, mw := {}, monDead := false,
-               raisedSet := {},
+               raisedSet := {}, killedSet := {},
                caseHash := 7, caseNontrivial := false, cases := st.cases + 1 }, [])
   | _ =>
     let st := { st with lineNo := st.lineNo + 1, lines := st.lines + 1, caseHash := mixHash st.caseHash (hash l) }
@@ -806,6 +822,9 @@ def joinLine (st : JState) (line : String) : JState × List String :=
       ({ st with bads := st.bads + 1 }, [s!"BAD case={st.caseId} line={st.lineNo} {why}: {l.take 120}"])
     match lt with
     | "ents" :: ts => match setupEnts st ts with | some s => (s, []) | none => bad st "unparsable ents line"
+    | "killed" :: ts => match setupKilled st ts with
+      | some s => (s, [])
+      | none => bad st "killed line is unparsable or not a subset of the ents line"
     | "raised" :: ts => match setupRaised st ts with
       | some s => (s, [])
       | none => bad st "raised line is unparsable or not a subset of the ents line"
@@ -858,6 +877,8 @@ def joinLine (st : JState) (line : String) : JState × List String :=
           let adj (b : Nat) : Bool := ks.contains (b - 1) && ks.contains b
           let rv := if st.raisedSet.isEmpty then 0 else (ks.filter (st.raisedSet.contains ·)).length
           let st := { st with raisedVisits := st.raisedVisits + rv, raisedOps := st.raisedOps + (if rv > 0 then 1 else 0) }
+          let kv := if st.killedSet.isEmpty then 0 else (ks.filter (st.killedSet.contains ·)).length
+          let st := { st with killedVisits := st.killedVisits + kv, killedOps := st.killedOps + (if kv > 0 then 1 else 0) }
           let st := { st with mw := mo.mw, items := st.items + ks.length,
                               cross64 := st.cross64 + (if crosses 64 then 1 else 0),
                               cross4096 := st.cross4096 + (if crosses 4096 then 1 else 0),
@@ -893,4 +914,4 @@ open SpecsModel.Driver.JoinDom in
 def runJoin (h : IO.FS.Stream) : IO Unit := do
   let st ← joinLoop h {}
   let st := st.closeCase
-  IO.println s!"STATS cases={st.cases} lines={st.lines} diffs={st.diffs} mons={st.mons} bads={st.bads} distinct={st.distinct.size} distinct_nontrivial={st.distinctNontrivial} items={st.items} nohook={st.skippedNoHook} max_index={st.maxIdx} raised={st.raised} raised_cases={st.raisedCases} raised_gen2={st.raisedGen2} raised_visits={st.raisedVisits} raised_ops={st.raisedOps} cross64={st.cross64} cross4096={st.cross4096} cross262144={st.cross262144} adj64={st.adj64} adj4096={st.adj4096} adj262144={st.adj262144} {showHist "mode_" st.modes} {showHist "arity_" st.arities}"
+  IO.println s!"STATS cases={st.cases} lines={st.lines} diffs={st.diffs} mons={st.mons} bads={st.bads} distinct={st.distinct.size} distinct_nontrivial={st.distinctNontrivial} items={st.items} nohook={st.skippedNoHook} max_index={st.maxIdx} raised={st.raised} raised_cases={st.raisedCases} raised_gen2={st.raisedGen2} raised_visits={st.raisedVisits} raised_ops={st.raisedOps} killed={st.killed} killed_cases={st.killedCases} killed_visits={st.killedVisits} killed_ops={st.killedOps} cross64={st.cross64} cross4096={st.cross4096} cross262144={st.cross262144} adj64={st.adj64} adj4096={st.adj4096} adj262144={st.adj262144} {showHist "mode_" st.modes} {showHist "arity_" st.arities}"
